@@ -87,7 +87,7 @@ def main():
     meta['detected_by'] = sorted(c for c, r in results.items() if r['exit'] == 1)
     meta['ran'].append('/repo: git apply patch; ' + '; '.join('./check %s --tier %s' % (c, tier) for c in checks) + '; git checkout -- .')
     if confirmed:
-        sd = os.path.join(ROOT, 'seeded', '%s-%s' % (prop, n))
+        sd = os.path.join(ROOT, "seeded", "%s-%s%s" % (prop, os.environ.get("SEED_ROUND", ""), n))
         os.makedirs(sd, exist_ok=True)
         shutil.copy(patch, os.path.join(sd, 'patch.diff'))
         for d in demo:
